@@ -191,6 +191,8 @@ class Lean:
             xs = self.xs(_prod(c["shape"]))
             D, ys, _ = self.chain(c["shape"], steps, xs)
             return D, (xs, ys)
+        if name == "Sum" and "blocks" in c:
+            return None  # BlockArray input: documented per-block reduction, numpy reference only
         if name == "Sum" and real:
             nd = len(c["shape"])
             ax = c["axis"]
